@@ -142,6 +142,10 @@ pub struct Config {
     pub badframes: bool,
     /// Random conversations: bursts of padded events with nothing in between (`feed-failure-*` parts).
     pub bursts: bool,
+    /// Map lanes: the runtime is built with `MapDownlinkRuntime::with_interpretation(.., NoInterpretation)`
+    /// (what the server builds for map-event downlinks and the client with `interpret_frame_data = false`):
+    /// event bodies are passed to the consumers as the lane sent them, and the consumers read them as such.
+    pub passthrough: bool,
 }
 
 pub const LONG_TIMEOUT_MS: u64 = 5000;
@@ -299,6 +303,7 @@ impl<'a> Gen<'a> {
             strategy: Strategy::Abort,
             badframes: false,
             bursts: false,
+            passthrough: false,
         }
     }
 
@@ -938,6 +943,7 @@ pub fn grid_case(idx: u64) -> (Config, Vec<Step>, JoinPhase) {
         strategy: Strategy::Abort,
         badframes: false,
         bursts: false,
+        passthrough: false,
     };
     let mut lane_n = 1u64;
     let mut change = |steps: &mut Vec<Step>| {
@@ -1091,6 +1097,7 @@ pub fn directed_case(idx: u64) -> (Config, Vec<Step>, &'static str) {
         strategy: Strategy::Abort,
         badframes: false,
         bursts: false,
+        passthrough: false,
     };
     (cfg, s, DIRECTED_SCENARIOS[scenario])
 }
@@ -1277,6 +1284,7 @@ pub fn fault_case(idx: u64) -> (Config, Vec<Step>, &'static str) {
         strategy: Strategy::Abort,
         badframes: false,
         bursts: false,
+        passthrough: false,
     };
     (cfg, s, FAULT_SCENARIOS[scenario])
 }
@@ -1467,6 +1475,7 @@ pub fn inactivity_case(idx: u64) -> (Config, Vec<Step>, &'static str) {
         strategy: Strategy::Abort,
         badframes: false,
         bursts: false,
+        passthrough: false,
     };
     (cfg, s, INACTIVITY_SCENARIOS[scenario])
 }
@@ -1661,6 +1670,7 @@ pub fn badframe_case(idx: u64) -> (Config, Vec<Step>, &'static str) {
         strategy,
         badframes: true,
         bursts: false,
+        passthrough: false,
     };
     (cfg, s, BADFRAME_POSITIONS[pos])
 }
@@ -1782,6 +1792,7 @@ pub fn feed_failure_case(idx: u64) -> (Config, Vec<Step>, &'static str) {
         strategy: Strategy::Abort,
         badframes: false,
         bursts: true,
+        passthrough: false,
     };
     (cfg, s, FEED_FAILURE_VARIANTS[var])
 }
@@ -1928,6 +1939,33 @@ pub fn inactivity_extra_case(idx: u64) -> (Config, Vec<Step>, &'static str) {
         strategy,
         badframes: scenario >= 2,
         bursts: scenario < 2,
+        passthrough: false,
     };
     (cfg, s, INACTIVITY_EXTRA_SCENARIOS[scenario])
+}
+
+// ------------------------------------------------------------------------------------------------
+// The join-phase grid once more, map lane only, through the pass-through variant of the map runtime
+// (`NoInterpretation`), and - `more` - with a lane that holds five entries and a third consumer that
+// joins late with SYNC after further changes and removals.
+
+pub const PASSTHROUGH_GRID_CASES: u64 = GRID_CASES / 2 * 2;
+
+pub fn passthrough_grid_case(idx: u64) -> (Config, Vec<Step>, JoinPhase) {
+    let more = idx >= GRID_CASES / 2;
+    let (mut cfg, mut s, phase) = grid_case((idx % (GRID_CASES / 2)) * 2 + 1);
+    debug_assert!(cfg.kind == LaneKind::Map);
+    cfg.passthrough = true;
+    if more {
+        let again = cfg.consumers[1].clone();
+        cfg.consumers.push(ConsCfg { sync: true, ..again });
+        s.push(Step::LaneApply(Ev::Rem(lane_key(0))));
+        s.push(Step::LaneApply(Ev::Upd(lane_key(1), 77)));
+        s.push(Step::Settle);
+        s.push(Step::Attach(2));
+        s.push(Step::Settle);
+        s.push(Step::LaneApply(Ev::Upd(lane_key(0), 78)));
+        s.push(Step::Settle);
+    }
+    (cfg, s, phase)
 }
